@@ -33,18 +33,24 @@ def static_users(P, static):
             for st in f.stmts(b):
                 if st['k'] == 'assign':
                     for op in ([st['r'].get('o')] if st['r'].get('o') else []) + st['r'].get('ops', []):
-                        if isinstance(op, dict) and op.get('static') and strip_generics(op['static']) == static:
+                        if isinstance(op, dict) and strip_generics(op.get('static') or op.get('cdef') or '') == static:
                             mention = True
                     if st['r']['k'] == 'tlref' and strip_generics(st['r']['def']) == static:
                         mention = True
             t = f.term(b)
             if t['k'] == 'call':
                 for op in t['args']:
-                    if op.get('static') and strip_generics(op['static']) == static:
+                    if strip_generics(op.get('static') or op.get('cdef') or '') == static:
                         mention = True
         if not mention:
             continue
-        users.append(f)
+        if f.kind == 'promoted':
+            par = P.fns.get(f.key.split('::{promoted#')[0])
+            if par is not None and par not in users:
+                users.append(par)
+            continue
+        if f not in users:
+            users.append(f)
         for s in f.calls():
             if not s.args:
                 continue
